@@ -1,3 +1,4 @@
 //! Independent reference models. Nothing in here calls the function it is the oracle for.
 pub mod hex;
+pub mod page;
 pub mod table;
